@@ -110,11 +110,12 @@ def r15_3(ctx):
             if not placed and calls:
                 ctx.violation(construct(g, "removal-not-guarded"), g.loc(), "the leave-workplace routine acts on a component that is no longer placed: executing it twice (pause/resume) fails")
     # PERT: shared with C12 R12.1
-    from .C12 import stale_accumulators
-    for fn, attr, loc, ok, why in stale_accumulators(ctx):
-        ctx.instance(construct(fn, f"pert-accumulator:{attr}"))
-        if not ok:
-            ctx.violation(construct(fn, f"stale-accumulator:{attr}"), loc, why)
+    from .C12 import prior_dependence
+    fn, insts, bad = prior_dependence(ctx)
+    for name, cells in insts:
+        ctx.instance(construct(fn, f"pert-{name}"), cells=cells)
+    for key, why in bad:
+        ctx.violation(construct(fn, f"stale-accumulator:{key}"), fn.loc(), why)
     ctx.end()
 
 
